@@ -247,7 +247,7 @@ class Ctx:
         self.case_violations.append(Violation(self.prop, kind, sig, str(detail)[:600], self.spec))
 
     @contextlib.contextmanager
-    def lib(self, label, feature=None, ok=(), budget_calls=None):
+    def lib(self, label, feature=None, ok=(), budget_calls=None, big=False):
         """Library call that must return: any exception is a `crash` violation (DESIGN 3.6).
         Exceptions of the types in `ok` are re-raised for the caller to handle."""
         nested = _Budget.active
@@ -271,6 +271,11 @@ class Ctx:
             self.inconclusive_case("wall-clock:" + label)
             raise CaseAborted()
         except BudgetExceeded as e:
+            if big and _Budget.calls <= _Budget.MAX_CALLS:
+                # a request for very many points met the per-draw element cap (a memory guard of the
+                # harness, not a round count): nothing is known about termination
+                self.inconclusive_case("element-cap:" + label)
+                raise CaseAborted() from e
             fr = lib_frame(e)
             self.violation("nontermination", f"{fr}" + (f"|{feature}" if feature else ""),
                            f"{label}: random-draw budget exhausted ({e}); the call does not terminate "
